@@ -44,6 +44,7 @@ import (
 
 	"github.com/sharedcode/sop"
 	"github.com/sharedcode/sop/btree"
+	"github.com/sharedcode/sop/cache"
 	"github.com/sharedcode/sop/database"
 
 	"verifharness/kit/env"
@@ -59,10 +60,14 @@ import (
 type dbSpec struct {
 	Folders []string `json:"folders"`      // 1 = single folder, 2 = active/passive
 	EC      []string `json:"ec,omitempty"` // erasure-coding drive folders (replicated layout)
+	Gated   bool     `json:"-"`            // transactions use the gate wrapper around the in-memory L2 cache
 }
 
 func (s dbSpec) db() sopx.DB {
 	o := sop.DatabaseOptions{StoresFolders: s.Folders, CacheType: sop.InMemory}
+	if s.Gated {
+		o.CacheType = gateCacheType
+	}
 	if len(s.EC) > 0 {
 		o.ErasureConfig = map[string]sop.ErasureCodingConfig{
 			"": {DataShardsCount: 1, ParityShardsCount: 1, BaseFolderPathsAcrossDrives: s.EC},
@@ -702,6 +707,77 @@ func setItem(w *wantStore, k, v string) {
 }
 
 // ---------------------------------------------------------------------------------------------
+// the gate: a deterministic stand-in for "two creators pass NewBtree's existence check before either adds"
+// ---------------------------------------------------------------------------------------------
+
+// gateCache wraps the process's in-memory L2 cache (public seam sop.RegisterL2CacheFactory). Its only
+// own behaviour: while armed, the next DualLock on the store-list lock key (the first thing
+// StoreRepository.Add does, i.e. AFTER NewBtree's StoreRepository.Get found nothing) parks its caller
+// until released. Everything else, including that DualLock itself afterwards, is the real cache.
+type gateCache struct {
+	sop.L2Cache
+	mu      sync.Mutex
+	armed   bool
+	release chan struct{}
+	arrived chan struct{}
+}
+
+const gateCacheType = sop.L2CacheType(1212)
+
+var theGate *gateCache
+
+func setupGate() error {
+	if theGate != nil {
+		return nil
+	}
+	if _, err := database.ValidateOptions(sop.DatabaseOptions{CacheType: sop.InMemory}); err != nil {
+		return err
+	}
+	inner := sop.GetL2Cache(sop.TransactionOptions{CacheType: sop.InMemory})
+	if inner == nil {
+		return fmt.Errorf("no in-memory L2 cache registered")
+	}
+	cache.GetGlobalL1Cache(inner) // bind the process-wide L1 cache to the real cache first
+	theGate = &gateCache{L2Cache: inner}
+	sop.RegisterL2CacheFactory(gateCacheType, func(sop.TransactionOptions) sop.L2Cache { return theGate })
+	return nil
+}
+
+// arm makes the next store-list DualLock park; returns the channels to wait on / release with.
+func (g *gateCache) arm() (arrived <-chan struct{}, release chan<- struct{}) {
+	g.mu.Lock()
+	defer g.mu.Unlock()
+	g.armed = true
+	g.arrived, g.release = make(chan struct{}), make(chan struct{})
+	return g.arrived, g.release
+}
+
+func (g *gateCache) disarm() {
+	g.mu.Lock()
+	g.armed = false
+	g.mu.Unlock()
+}
+
+func (g *gateCache) DualLock(ctx context.Context, d time.Duration, keys []*sop.LockKey) (bool, sop.UUID, error) {
+	for _, k := range keys {
+		if strings.HasSuffix(k.Key, ":infs_sr") {
+			g.mu.Lock()
+			if g.armed {
+				g.armed = false
+				arrived, release := g.arrived, g.release
+				g.mu.Unlock()
+				close(arrived)
+				<-release
+			} else {
+				g.mu.Unlock()
+			}
+			break
+		}
+	}
+	return g.L2Cache.DualLock(ctx, d, keys)
+}
+
+// ---------------------------------------------------------------------------------------------
 // family 2: create-race
 // ---------------------------------------------------------------------------------------------
 
@@ -709,12 +785,20 @@ func setItem(w *wantStore, k, v string) {
 //
 //	scripted         2..4 transactions driven from one goroutine; their steps (begin+NewBtree, adds, end)
 //	                 are interleaved by the PRNG; each ends by commit or rollback. Deterministic and fast.
-//	parallel-create  the begin+NewBtree steps run in parallel goroutines behind a barrier (the real creation
-//	                 race); adds and endings are then interleaved from one goroutine.
-//	parallel-full    everything in parallel (thorough tier only: two creators that both register the first
-//	                 root node make the library wait out its 3-minute sector-lock timeout, fs/hashmap.fileregion.go).
+//	gated            the creation race proper, made deterministic: 1..N-1 creators run begin+NewBtree up to the
+//	                 point where NewBtree has found no such store and is about to add it (parked at the gate,
+//	                 see gateCache); then one creator runs NewBtree to completion; then the parked ones are
+//	                 released one at a time in a PRNG order; remaining creators join later; adds and endings are
+//	                 interleaved from one goroutine. A pure function of the plan, no real concurrency decides.
+//	parallel-create  (thorough tier only) the begin+NewBtree steps run in parallel goroutines behind a barrier;
+//	                 adds and endings are then interleaved from one goroutine.
+//	parallel-full    (thorough tier only) everything in parallel.
 //
-// Value placement SepActive is left out of this family: its rollback defect has its own signature in
+// Every Commit of this family gets a context with a 10 s deadline: two creators that both register the
+// first root node make the library wait out its 3-minute sector-lock timeout (fs/hashmap.fileregion.go).
+// A round in which a Commit ran into that deadline has no verdict (inconclusive), never a violation.
+//
+// Value placement SepActive is left out of this family: its rollback path has its own site class in
 // create-abort and would only be aliased here.
 type racePlan struct {
 	Seed        int64       `json:"seed"`
@@ -725,19 +809,26 @@ type racePlan struct {
 	Ends        []string    `json:"ends"` // commit | rollback per creator
 	Items       int         `json:"items_each"`
 	Preexisting bool        `json:"another_store_exists"`
-	StaggerUs   []int       `json:"stagger_us"`
-	Order       [][2]int    `json:"order"` // scripted steps: (creator, step) with step 0=begin+NewBtree 1=adds 2=end
+	StaggerUs   []int       `json:"stagger_us,omitempty"`
+	Creator     int         `json:"creator"`           // scripted, gated: whose NewBtree finds no store and runs to completion first
+	Parked      []int       `json:"parked,omitempty"`  // gated: creators parked between NewBtree's lookup and its add, in parking order
+	Release     []int       `json:"release,omitempty"` // gated: order in which the parked creators are released
+	Order       [][2]int    `json:"order"`             // scripted steps: (creator, step) with step 0=begin+NewBtree 1=adds 2=end
 }
 
 type creatorResult struct {
-	End       string `json:"end"`
-	NewErr    string `json:"newbtree_err,omitempty"`
-	AddErr    string `json:"add_err,omitempty"`
-	CommitErr string `json:"commit_err,omitempty"`
-	Committed bool   `json:"committed"`
+	End         string `json:"end"`
+	NewErr      string `json:"newbtree_err,omitempty"`
+	AddErr      string `json:"add_err,omitempty"`
+	CommitErr   string `json:"commit_err,omitempty"`
+	Committed   bool   `json:"committed"`
+	DeadlineHit bool   `json:"commit_deadline_hit,omitempty"`
 }
 
-const raceStore = "raced"
+const (
+	raceStore      = "raced"
+	commitDeadline = 10 * time.Second
+)
 
 var raceProfiles = []sopx.Profile{sopx.InNode, sopx.Separate, sopx.SepCached}
 
@@ -748,7 +839,7 @@ func raceOpts(rnd *rand.Rand) storeOpts {
 }
 
 func genRacePlan(rnd *rand.Rand, seed int64, salt, mode string, n int, mixed bool) racePlan {
-	p := racePlan{Seed: seed, Salt: salt, Mode: mode, N: n, Items: 1 + rnd.Intn(3), Preexisting: rnd.Intn(2) == 0}
+	p := racePlan{Seed: seed, Salt: salt, Mode: mode, N: n, Items: 1 + rnd.Intn(3), Preexisting: rnd.Intn(2) == 0, Creator: -1}
 	first := raceOpts(rnd)
 	for i := 0; i < n; i++ {
 		o := first
@@ -756,34 +847,54 @@ func genRacePlan(rnd *rand.Rand, seed int64, salt, mode string, n int, mixed boo
 			o = raceOpts(rnd)
 		}
 		p.Opts = append(p.Opts, o)
-		p.StaggerUs = append(p.StaggerUs, rnd.Intn(3)*rnd.Intn(400))
+		if strings.HasPrefix(mode, "parallel") {
+			p.StaggerUs = append(p.StaggerUs, rnd.Intn(3)*rnd.Intn(400))
+		}
 		end := "commit"
 		if mode != "parallel-full" && rnd.Intn(3) == 0 {
 			end = "rollback"
 		}
 		p.Ends = append(p.Ends, end)
 	}
-	if mode != "parallel-full" {
-		p.Ends[rnd.Intn(n)] = "commit"
-		// random merge of the per-creator step sequences
-		next := make([]int, n)
-		first := 0
-		if mode == "parallel-create" {
-			first = 1 // step 0 happens in the goroutines
-			for i := range next {
-				next[i] = 1
-			}
+	if mode == "parallel-full" {
+		return p
+	}
+	p.Ends[rnd.Intn(n)] = "commit"
+	// first step of every creator that the interleaving below still has to schedule
+	next := make([]int, n)
+	switch mode {
+	case "parallel-create":
+		for i := range next {
+			next[i] = 1 // step 0 happens in the goroutines
 		}
-		remaining := n * (3 - first)
-		for remaining > 0 {
-			i := rnd.Intn(n)
-			if next[i] > 2 {
-				continue
-			}
-			p.Order = append(p.Order, [2]int{i, next[i]})
-			next[i]++
-			remaining--
+	case "gated":
+		perm := rnd.Perm(n)
+		p.Creator = perm[0]
+		k := 1 + rnd.Intn(n-1)
+		p.Parked = append([]int{}, perm[1:1+k]...)
+		p.Release = append([]int{}, p.Parked...)
+		rnd.Shuffle(len(p.Release), func(i, j int) { p.Release[i], p.Release[j] = p.Release[j], p.Release[i] })
+		next[p.Creator] = 1
+		for _, i := range p.Parked {
+			next[i] = 1
 		}
+	}
+	remaining := 0
+	for i := range next {
+		remaining += 3 - next[i]
+	}
+	// random merge of the per-creator step sequences
+	for remaining > 0 {
+		i := rnd.Intn(n)
+		if next[i] > 2 {
+			continue
+		}
+		if mode == "scripted" && p.Creator < 0 {
+			p.Creator = i // the first begin+NewBtree of the round
+		}
+		p.Order = append(p.Order, [2]int{i, next[i]})
+		next[i]++
+		remaining--
 	}
 	return p
 }
@@ -792,6 +903,13 @@ func runRace(pl racePlan) (res caseResult) {
 	res.notes = map[string]any{}
 	sp := newSpec("single")
 	defer sp.remove()
+	if pl.Mode == "gated" {
+		if err := setupGate(); err != nil {
+			res.unusable = "gate: " + err.Error()
+			return
+		}
+		sp.Gated = true
+	}
 	d := sp.db()
 	model := map[string]*wantStore{}
 	if pl.Preexisting {
@@ -859,13 +977,28 @@ func runRace(pl racePlan) (res caseResult) {
 			}
 			return
 		}
-		if err := txs[i].Commit(sopx.Ctx); err != nil {
+		cctx, cancel := context.WithTimeout(context.Background(), commitDeadline)
+		err := txs[i].Commit(cctx)
+		expired := cctx.Err() != nil
+		cancel()
+		if err != nil {
 			results[i].CommitErr = err.Error()
+			results[i].DeadlineHit = expired || strings.Contains(err.Error(), "deadline exceeded")
 			txs[i].Rollback(sopx.Ctx)
 			return
 		}
 		results[i].Committed = true
 	}
+	guarded := func(i int, f func(i int)) {
+		defer func() {
+			if p := recover(); p != nil {
+				results[i].CommitErr = fmt.Sprintf("panic: %v", p)
+				dead[i] = true
+			}
+		}()
+		f(i)
+	}
+	const watchdog = 2 * time.Minute // no verdict when it expires, never a violation
 	inParallel := func(f func(i int)) bool {
 		start := make(chan struct{})
 		var wg sync.WaitGroup
@@ -873,17 +1006,11 @@ func runRace(pl racePlan) (res caseResult) {
 			wg.Add(1)
 			go func(i int) {
 				defer wg.Done()
-				defer func() {
-					if p := recover(); p != nil {
-						results[i].CommitErr = fmt.Sprintf("panic: %v", p)
-						dead[i] = true
-					}
-				}()
 				<-start
 				if us := pl.StaggerUs[i]; us > 0 { // schedule perturbation only, never consulted by the oracle
 					time.Sleep(time.Duration(us) * time.Microsecond)
 				}
-				f(i)
+				guarded(i, f)
 			}(i)
 		}
 		done := make(chan struct{})
@@ -892,9 +1019,46 @@ func runRace(pl racePlan) (res caseResult) {
 		select {
 		case <-done:
 			return true
-		case <-time.After(6 * time.Minute): // watchdog: no verdict, never a violation
+		case <-time.After(watchdog):
 			return false
 		}
+	}
+	// gatedCreate: park, create, release (see "Modes").
+	gatedCreate := func() bool {
+		type parkedT struct {
+			release chan<- struct{}
+			done    chan struct{}
+		}
+		parked := map[int]parkedT{}
+		for _, i := range pl.Parked {
+			arrived, release := theGate.arm()
+			done := make(chan struct{})
+			go func(i int) { defer close(done); guarded(i, stepNew) }(i)
+			select {
+			case <-arrived:
+				parked[i] = parkedT{release, done}
+			case <-done: // NewBtree ended without trying to add the store: nothing to park
+				theGate.disarm()
+			case <-time.After(watchdog):
+				theGate.disarm()
+				return false
+			}
+		}
+		res.notes["parked_at_the_gate"] = len(parked)
+		guarded(pl.Creator, stepNew)
+		for _, i := range pl.Release {
+			pk, ok := parked[i]
+			if !ok {
+				continue
+			}
+			close(pk.release)
+			select {
+			case <-pk.done:
+			case <-time.After(watchdog):
+				return false
+			}
+		}
+		return true
 	}
 	overlap := true
 	switch pl.Mode {
@@ -904,23 +1068,25 @@ func runRace(pl racePlan) (res caseResult) {
 			return
 		}
 	default:
-		if pl.Mode == "parallel-create" {
-			if !inParallel(stepNew) {
-				res.unusable = "race-watchdog"
-				return
-			}
+		if pl.Mode == "parallel-create" && !inParallel(stepNew) {
+			res.unusable = "race-watchdog"
+			return
+		}
+		if pl.Mode == "gated" && !gatedCreate() {
+			res.unusable = "race-watchdog"
+			return
 		}
 		began, ended := map[int]int{}, map[int]int{}
 		for pos, st := range pl.Order {
 			switch st[1] {
 			case 0:
 				began[st[0]] = pos
-				stepNew(st[0])
+				guarded(st[0], stepNew)
 			case 1:
-				stepAdd(st[0])
+				guarded(st[0], stepAdd)
 			case 2:
 				ended[st[0]] = pos
-				stepEnd(st[0])
+				guarded(st[0], stepEnd)
 			}
 		}
 		if pl.Mode == "scripted" {
@@ -932,6 +1098,13 @@ func runRace(pl racePlan) (res caseResult) {
 					}
 				}
 			}
+		}
+	}
+	for _, r := range results {
+		if r.DeadlineHit {
+			res.unusable = "commit-deadline"
+			res.notes["creators"] = results
+			return
 		}
 	}
 	committed, newErrs, commitErrs, rolledBack := 0, 0, 0, 0
@@ -976,21 +1149,7 @@ func runRace(pl racePlan) (res caseResult) {
 			}
 		}
 		fs = kept
-		// site class: which of the two ways a creator can take the store away from the others was in play
-		site := "none-committed"
-		if committed > 0 {
-			site = "all-committed"
-			for _, cr := range results {
-				if !cr.Committed {
-					site = "creator-aborted" // some creator rolled back or failed after NewBtree succeeded
-				}
-			}
-			for _, cr := range results {
-				if strings.Contains(cr.NewErr, "can't add store") {
-					site = "add-race-loser" // some creator lost the StoreRepository.Add race inside NewBtree
-				}
-			}
-		}
+		site := raceSite(pl, results, committed)
 		inList := countOf(o.Stores, raceStore)
 		if inList > 1 {
 			add("duplicate-entry", site, map[string]any{"getstores": o.Stores})
@@ -1055,6 +1214,40 @@ func runRace(pl racePlan) (res caseResult) {
 		res.findings = check("cold-process", oc)
 	}
 	return
+}
+
+// raceSite names which of the ways a creator can take the store away from the others was in play. It only
+// labels a violation found by the oracle, it never decides one.
+//
+//	add-race-loser         some creator lost the StoreRepository.Add race inside NewBtree
+//	creator-rolled-back    the creator (scripted/gated: whose NewBtree made the store) ended by Rollback
+//	creator-commit-failed  the creator's Commit returned an error
+//	opener-aborted         the creator committed, some other creator did not
+//	creator-aborted        parallel modes: who made the store is unknown, some creator did not commit
+func raceSite(pl racePlan, results []creatorResult, committed int) string {
+	if committed == 0 {
+		return "none-committed"
+	}
+	for _, cr := range results {
+		if strings.Contains(cr.NewErr, "can't add store") {
+			return "add-race-loser"
+		}
+	}
+	if pl.Creator >= 0 && !results[pl.Creator].Committed {
+		if pl.Ends[pl.Creator] == "rollback" {
+			return "creator-rolled-back"
+		}
+		return "creator-commit-failed"
+	}
+	for _, cr := range results {
+		if !cr.Committed {
+			if pl.Creator >= 0 {
+				return "opener-aborted"
+			}
+			return "creator-aborted"
+		}
+	}
+	return "all-committed"
 }
 
 // ---------------------------------------------------------------------------------------------
@@ -1309,9 +1502,9 @@ func runRR(pl rrPlan) (res caseResult) {
 
 const rule = "three PRNG-generated case families (pure function of VERIF_SEED and tier): create-abort programs (2..5 transactions, 1..3 store " +
 	"creations each, 6 endings, every ending x placement profile forced at least once per 24 programs), create-race rounds (2..6 creators, same or " +
-	"mixed options, with/without a pre-existing other store; modes scripted interleaving / parallel NewBtree / fully parallel (thorough only)), remove-recreate sequences (single-folder and replicated layout, all three options " +
+	"mixed options, with/without a pre-existing other store; modes scripted interleaving / gated (1..N-1 creators parked between NewBtree's lookup and its add while another creates, then released one by one: the creation race as a pure function of the plan) / parallel NewBtree and fully parallel goroutines (thorough tier only); every Commit bounded by a 10 s context deadline, a round that hits it is inconclusive), remove-recreate sequences (single-folder and replicated layout, all three options " +
 	"flipped). Fingerprint = family + the sequence of (ending, profiles) | (creators, outcome counts) | (layout, option flips, commits). " +
-	"Non-trivial: create-abort = at least one aborted transaction had really created a store; create-race = two or more creators whose transactions overlapped in time; remove-recreate = the removed store held items. Every case is observed by fresh " +
+	"Non-trivial: create-abort = at least one aborted transaction had really created a store; create-race = two or more creators whose transactions overlapped (scripted: one began between another's begin and end; gated: always); remove-recreate = the removed store held items. Every case is observed by fresh " +
 	"transactions of the same process and by a cold child process."
 
 var assumptions = []string{
@@ -1319,13 +1512,14 @@ var assumptions = []string{
 	"create-race asserts only the weaker reading (one consistent store whose options/items come from the creators); lost items of committed creators are counted (items_lost_in_races), not reported, because the README documents the un-seeded first-commit drop",
 	"a cancelled context passed to Commit counts as 'the transaction fails' (part 1 of the statement)",
 	"the replicated layout is 2 stores folders + erasure coding 1 data + 1 parity shard on 2 further folders, executed in a child process",
-	"RemoveBtree returning an error, or a watchdog expiry, yields an inconclusive case, never a violation",
+	"RemoveBtree returning an error, a watchdog expiry, or a race-round Commit that ran into its 10 s context deadline yields an inconclusive case, never a violation",
+	"the gated mode reaches the library through the public seam sop.RegisterL2CacheFactory: a wrapper around the real in-memory L2 cache that only delays one DualLock call on the store-list lock key",
 }
 
 func Run(r *report.Run) int {
 	rnd := env.Rand(r.Seed, "c12-plan")
 	nAbort := r.Pick(20, 240)
-	nScripted, nParCreate, nParFull := r.Pick(6, 120), r.Pick(6, 90), r.Pick(0, 10)
+	nScripted, nGated, nParCreate, nParFull := r.Pick(6, 120), r.Pick(6, 90), r.Pick(0, 30), r.Pick(0, 10)
 	nRRs, nRRr := r.Pick(6, 100), r.Pick(2, 40)
 	only := os.Getenv("VERIF_C12_ONLY") // development aid: run one family
 
@@ -1358,13 +1552,15 @@ func Run(r *report.Run) int {
 		pl := genAbortPlan(env.Rand(r.Seed, salt), r.Seed, salt, pr[0], sopx.Profile(pr[1]))
 		jobs = append(jobs, job{"create-abort", func() caseResult { return runAbort(pl) }, pl})
 	}
-	for i := 0; i < nScripted+nParCreate+nParFull; i++ {
+	for i := 0; i < nScripted+nGated+nParCreate+nParFull; i++ {
 		mode, n := "scripted", 2+i%3
 		switch {
-		case i >= nScripted+nParCreate:
+		case i >= nScripted+nGated+nParCreate:
 			mode, n = "parallel-full", 2+i%5
-		case i >= nScripted:
+		case i >= nScripted+nGated:
 			mode, n = "parallel-create", 2+i%5
+		case i >= nScripted:
+			mode, n = "gated", 2+i%3
 		}
 		salt := fmt.Sprintf("race-%d", i)
 		pl := genRacePlan(env.Rand(r.Seed, salt), r.Seed, salt, mode, n, i%3 == 2)
